@@ -248,6 +248,9 @@ pub struct Program
 	pub imports: Vec<String>,
 	/// verbatim top-level text chunks
 	pub raws: Vec<String>,
+	/// the imports are printed after this many top-level declarations
+	/// (an import may stand anywhere among the declarations)
+	pub imports_after: usize,
 }
 
 #[derive(Debug, Clone, Copy, PartialEq, Eq, Hash)]
@@ -630,17 +633,21 @@ impl<'a, 'c> Printer<'a, 'c>
 	pub fn program(mut self) -> String
 	{
 		let prog = self.prog;
-		for imp in &prog.imports
-		{
-			self.line(&format!("import \"{}\";", imp));
-		}
-		if !prog.imports.is_empty()
-		{
-			self.nl();
-		}
 		let order = prog.order.clone();
+		let imports_at = prog.imports_after.min(order.len());
 		for (i, top) in order.iter().enumerate()
 		{
+			if i == imports_at
+			{
+				for imp in &prog.imports
+				{
+					self.line(&format!("import \"{}\";", imp));
+				}
+				if !prog.imports.is_empty()
+				{
+					self.nl();
+				}
+			}
 			if i > 0 && (self.layout.blank_lines || self.layout.comments == 0)
 			{
 				self.nl();
@@ -657,6 +664,13 @@ impl<'a, 'c> Printer<'a, 'c>
 						self.line(l);
 					}
 				}
+			}
+		}
+		if imports_at >= order.len()
+		{
+			for imp in &prog.imports
+			{
+				self.line(&format!("import \"{}\";", imp));
 			}
 		}
 		self.out
